@@ -137,3 +137,15 @@ def dispatch(c):
   c.sink._AsyncProcessRequestImpl(st, msg, None, None)
   chosen = [i for i in range(1, c.N + 1) if c.chan[i].reqs]
   return st, term, msg, chosen
+
+
+def release_method(sink):
+  """the balancer's per-request release ("put") method, looked up by what it does rather than by its private name, so
+  that a rename of the private method does not break the harness: the method of the heap balancer class that calls the
+  _OnPut hook"""
+  from scales.loadbalancer.heap import HeapBalancerSink as H
+  for name, fn in vars(H).items():
+    code = getattr(fn, '__code__', None)
+    if code is not None and '_OnPut' in code.co_names and name != '_OnPut':
+      return getattr(sink, name)
+  raise AttributeError('no release method (a method calling _OnPut) found on HeapBalancerSink')
